@@ -832,3 +832,23 @@ package zygo
 //@ C18 assert package-path-after-head @before call nestedPathGetSet[0]: len(arg2) == len(path) - 1 && sarr(arg2) == sarr(path) && soff(arg2) == soff(path) + 1
 // a symbol's name and number never change after it has been built
 //@ stable C18 SexpSymbol | name, number |
+
+// ===========================================================================
+// C17  declared struct types are enforced on every write
+// ===========================================================================
+// typedRecord(h): h is an instance of a declared struct (not an anonymous hash)
+//@ macro typedRecord(h *SexpHash) bool = h.GoStructFactory != nil && h.GoStructFactory.UserStructDefn != nil && h.TypeName != "hash" && h.TypeName != "field"
+//@ macro declaredField(h *SexpHash, k Sexp) bool = typeis(k, *SexpSymbol) && has(h.GoStructFactory.UserStructDefn.FieldType, k.(*SexpSymbol).name)
+
+// the field check: success on a typed record means the key is a declared field name
+//@ func (*SexpHash).TypeCheckField
+//@ C17 ensures only-declared: r0 == nil && typedRecord(h) ==> declaredField(h, key)
+//@ C17 ensures not-a-symbol: r0 == KeyNotSymbol ==> !typeis(key, *SexpSymbol) && !typedRecord(h) && h.GoStructFactory == old(h.GoStructFactory)
+//@ C17 ensures keeps-definition: old(h.GoStructFactory != nil && h.GoStructFactory.UserStructDefn != nil) ==> h.GoStructFactory == old(h.GoStructFactory)
+
+// every successful set on a typed record stores a declared field; a rejected set changes nothing (C14 contract)
+//@ func (*SexpHash).HashSet
+//@ C17 ensures only-declared: r0 == nil && typedRecord(hash) ==> declaredField(hash, old(nkey(key)))
+
+// the write funnel: the bucket map and the key-order list of a hash are written only here
+//@ writers C17 SexpHash | Map, KeyOrder, NumKeys | (*SexpHash).HashSet, (*SexpHash).HashDelete, (*SexpHash).removeFromKeyOrder, MakeHash, SetHashKeyOrder, (*SexpHash).CloneFrom
